@@ -171,8 +171,10 @@ theorem processBunch_rkeep (c : Conn) (x : Channel) (b : Bunch) (hx : c.getChan 
   · exact emit_rkeep _ _
   · split
     · split
-      · exact setChan_rkeep' _ _ x _ hx rfl
       · exact emit_rkeep _ _
+      · split
+        · exact setChan_rkeep' _ _ x _ hx rfl
+        · exact emit_rkeep _ _
     · exact receivedNextBunch_rkeep _ _
 
 theorem receivedRawBunch_rkeep (c : Conn) (bits : Bits) : RKeep c (c.receivedRawBunch bits).1 := by
